@@ -190,6 +190,60 @@ fn emit(sink: &mut Sink, c: &Cfg, pre: &Value, post: &Value, a: &Act, res: &(boo
         "ok": res.0, "err": res.1, "out": res.2, "panic": res.3}));
 }
 
+/// Cost a mint-only history reaching `total` would have (sequential floors): only used to keep the numbers
+/// of generated histories inside TLC's 32-bit range, never as an oracle.
+fn cost_after(c: &Cfg, total: u64) -> u128 {
+    let mut cost = c.cost0;
+    for _ in 0..(total / c.step).min(200) {
+        cost = cost * c.grow as u128 / 10;
+        if cost > 1 << 60 {
+            break;
+        }
+    }
+    cost
+}
+
+/// Scripted histories around the grow-step boundaries: mint to just below a step, burn / request an
+/// exchange (supply < total minted from here on), mint across the step, across two steps, repeat.
+fn scripted(sink: &mut Sink, ea: &'static AccountInfo<'static>) {
+    for step in [2u64, 3, 5, 8] {
+        for grow in [15u64, 20] {
+            for cost0 in [3u128, 10] {
+                let c = Cfg { step, grow, cost0, ranks: vec![1, step, 2 * step + 1], window: 2 };
+                let mut w = World::new(&c, 0);
+                let mut script: Vec<Act> = vec![Act { op: "newvault", u: 0, n: 0 }];
+                for round in 0..3u64 {
+                    let (a, b) = if round % 2 == 0 { (1usize, 2usize) } else { (2, 1) };
+                    script.push(Act { op: "mint", u: a, n: step - 1 });          // just below the next step
+                    script.push(Act { op: "burn", u: a, n: 1 });
+                    script.push(Act { op: "mint", u: a, n: 1 });                 // across the step after a burn
+                    script.push(Act { op: "request", u: a, n: (step - 1).min(2) });
+                    script.push(Act { op: "mint", u: b, n: step });              // across the next step after a request
+                    script.push(Act { op: "burn", u: b, n: step - 1 });
+                    script.push(Act { op: "mint", u: b, n: 2 * step });          // across two steps
+                    script.push(Act { op: "burn", u: b, n: 2 * step });          // supply far below the total
+                    script.push(Act { op: "mint", u: a, n: 1 });                 // inside a step
+                    script.push(Act { op: "mfv", u: a, n: 0 });                  // replaced below: pay for step + 1 units
+                }
+                let mut first = true;
+                for mut a in script {
+                    if a.op == "mfv" {
+                        a.n = (w.store.gt().minting_cost() as u64).saturating_mul(step + 1) + 1;
+                    }
+                    if cost_after(&c, w.store.gt().total_minted() + 3 * step) > 20_000_000 || w.store.gt().minting_cost() > 20_000_000 {
+                        break;
+                    }
+                    let pre = w.project();
+                    let res = apply(&mut w, &a, ea);
+                    let post = w.project();
+                    emit(sink, &c, &pre, &post, &a, &res, first);
+                    first = false;
+                }
+            }
+        }
+    }
+}
+
 fn alphabet() -> Vec<Act> {
     let mut v = vec![];
     for u in 1..=NUSERS {
@@ -248,6 +302,7 @@ fn small(args: &Args) -> i32 {
             }
         }
     }
+    scripted(&mut sink, ea);
     eprintln!("c30 small: {} events, {} expanded-or-seen states", sink.finish(), states_total);
     0
 }
@@ -279,14 +334,18 @@ fn random(args: &Args) -> i32 {
             w = World::new(&c, rng.range(0, 50));
         }
         // keep numbers inside TLC's 32-bit range
-        if w.store.gt().minting_cost() > 5_000_000 || w.store.gt().total_minted() > 100_000 {
+        if w.store.gt().minting_cost() > 5_000_000 || w.store.gt().total_minted() > 100_000
+            || cost_after(&c, w.store.gt().total_minted() + 8 * c.step + 8) > 50_000_000
+        {
             w = World::new(&c, 0);
         }
         let u = 1 + rng.below(NUSERS as u64) as usize;
         let bal = w.users[u - 1].gt().amount();
         let cost = w.store.gt().minting_cost() as u64;
         let a = match rng.below(12) {
-            0..=2 => Act { op: "mint", u, n: rng.below(3 * c.step + 2) },
+            0 | 1 => Act { op: "mint", u, n: rng.below(3 * c.step + 2) },
+            // land exactly on / just across the next grow step (also after burns and exchange requests)
+            2 => Act { op: "mint", u, n: c.step - w.store.gt().total_minted() % c.step + c.step * rng.below(2) + rng.below(2) },
             3 | 4 => Act { op: "burn", u, n: if rng.chance(3, 4) { rng.below(bal + 1) } else { bal + 1 + rng.below(3) } },
             5..=7 => Act { op: "mfv", u, n: rng.below(cost.saturating_mul((3 * c.step + 1).min(6)).min(40_000_000) + 2) },
             8 => Act { op: "request", u, n: if rng.chance(3, 4) { rng.below(bal + 1) } else { bal + 1 } },
